@@ -92,11 +92,13 @@ type c09Step struct {
 	Timeout bool     `json:"timeout,omitempty"`
 	Ready  bool      `json:"ready"` // client Ready after the step
 	Pushes int       `json:"pushes"` // pushClient runs that reached storeLastPush during the step
-	Rehello bool     `json:"rehello,omitempty"` // drop: a new handshake completed
+	Rehello bool     `json:"rehello,omitempty"` // drop: the client completed a new handshake and is Ready
+	SrvReady bool    `json:"srv_ready,omitempty"` // drop: the server is Ready again (within 1 s after the client)
 	// race: source transitions / snapshot / mirror while the reply was parked
 	Trans2 []c09Snap  `json:"trans2,omitempty"`
 	Mir2   *c09Mirror `json:"mir2,omitempty"`
 	Parked bool       `json:"parked,omitempty"`
+	WaitMs int        `json:"wait_ms,omitempty"` // drop: time until the new handshake (diagnostic, not compared)
 }
 
 type c09Obs struct {
@@ -642,17 +644,28 @@ func c09Exec(in *C09Input) (obs *c09Obs) {
 			}
 		case "drop":
 			tick := p.cli.Mach.Tick(ssrpc.ClientStates.HandshakeDone)
+			t0 := time.Now()
 			p.proxy.Cut()
 			// wait for a new handshake
 			deadline := time.Now().Add(3 * time.Second)
 			for time.Now().Before(deadline) {
-				if p.cli.Mach.Tick(ssrpc.ClientStates.HandshakeDone) >= tick+2 && p.ready() &&
-					p.srv.Mach.Is1(ssrpc.ServerStates.Ready) {
+				if p.cli.Mach.Tick(ssrpc.ClientStates.HandshakeDone) >= tick+1+tick%2 && p.ready() {
 					st.Rehello = true
 					break
 				}
 				time.Sleep(2 * time.Millisecond)
 			}
+			if st.Rehello {
+				d2 := time.Now().Add(time.Second)
+				for time.Now().Before(d2) {
+					if p.srv.Mach.Is1(ssrpc.ServerStates.Ready) {
+						st.SrvReady = true
+						break
+					}
+					time.Sleep(2 * time.Millisecond)
+				}
+			}
+			st.WaitMs = int(time.Since(t0).Milliseconds())
 			time.Sleep(2 * c09Ticker)
 		}
 		if !st.Parked {
@@ -672,6 +685,9 @@ func c09Exec(in *C09Input) (obs *c09Obs) {
 	pdq := p.pushDone.Load()
 	p.pushWindow()
 	obs.FinalPushes = int(p.pushDone.Load() - pdq)
+	if os.Getenv("C09_DEBUG") != "" {
+		fmt.Fprintf(os.Stderr, "srv: %v\ncli: %v\n", p.srv.Mach.ActiveStates(nil), p.cli.Mach.ActiveStates(nil))
+	}
 	obs.FinalSrc = p.srcSnap()
 	obs.FinalMir = p.mirror()
 	cm := p.cli.Mach
@@ -710,8 +726,9 @@ func c09CoqMir(m c09Mirror) string {
 func c09Coq(in *C09Input, obs *c09Obs) string {
 	var b strings.Builder
 	sync := !in.NoSchema
-	fmt.Fprintf(&b, "{| k_p := {| p_codec := {| sync_schema := %s; shallow := %s; tracked := %s |}; p_mut := %s |}; k_pushes := %s; ",
-		coqBool(sync), coqBool(in.Shallow), coqNatList(obs.Tracked), coqBool(in.SyncMut), coqBool(in.Pushes))
+	fmt.Fprintf(&b, "{| k_p := {| p_codec := {| sync_schema := %s; shallow := %s; tracked := %s |}; p_mut := %s; p_hello_m := %s; p_sync_m := %s |}; k_pushes := %s; ",
+		coqBool(sync), coqBool(in.Shallow), coqNatList(obs.Tracked), coqBool(in.SyncMut),
+		coqBool(c09FixHelloM), coqBool(c09FixSyncM), coqBool(in.Pushes))
 	fmt.Fprintf(&b, "k_n := %d; k_norel := %s; k_err := %s; ", in.N+1, coqBool(len(in.Rels) == 0), coqBool(obs.Err != ""))
 	fmt.Fprintf(&b, "k_hello_src := %s; k_hello := %s;\n   k_steps := [", c09CoqSnap(obs.HelloSrc), c09CoqMir(obs.Hello))
 	for i, st := range obs.Steps {
@@ -736,7 +753,7 @@ func c09Coq(in *C09Input, obs *c09Obs) string {
 		case "sync":
 			step = "OSync"
 		case "drop":
-			step = fmt.Sprintf("(ODrop %s)", coqBool(st.Rehello))
+			step = fmt.Sprintf("(ODrop %s %s)", coqBool(st.Rehello), coqBool(st.SrvReady))
 		default:
 			step = "ONoop"
 		}
@@ -915,6 +932,23 @@ func c09ExecStable(in *C09Input) *c09Obs {
 	return obs
 }
 
+// candidate repairs of /repo the model has a switch for; probed on the real
+// code at start-up (a source with MachineTick 1: what machine tick does the
+// mirror hold after the handshake / after a full Sync)
+var c09FixHelloM, c09FixSyncM bool
+
+func c09ProbeFixes() {
+	in := &C09Input{N: 2, MachTick: 1, Ops: []C09Op{{Kind: "sync"}}}
+	for try := 0; try < 3; try++ {
+		obs := c09Exec(in)
+		if obs.Err == "" && len(obs.Steps) == 1 && !obs.Steps[0].Timeout {
+			c09FixHelloM = obs.Hello.M == 1
+			c09FixSyncM = obs.Steps[0].Mir.M == 1
+			return
+		}
+	}
+}
+
 type c09Job struct {
 	kind string
 	in   *C09Input
@@ -929,6 +963,7 @@ func runC09(c *Ctx) error {
 		"From Coq Require Import List NArith.\nFrom AMV Require Import Model.RpcCodec Conc.RpcSync Run.EvalC09.\nImport ListNotations.\nOpen Scope N_scope.",
 		"c09case", "check_all", 150)
 
+	c09ProbeFixes()
 	var jobs []*c09Job
 	cases, replayOnly := c.loadCases()
 	for _, cc := range cases {
@@ -1048,7 +1083,9 @@ func runC09(c *Ctx) error {
 	if replayOnly {
 		rule = "replay"
 	}
-	out.Close(rule, nil)
+	out.Close(rule, map[string]any{"repairs_present_in_repo": map[string]bool{
+		"HandshakeDone takes MachineTick from the Hello": c09FixHelloM,
+		"RemoteSync fills MsgSrvSync.MachTick":           c09FixSyncM}})
 	return nil
 }
 
